@@ -188,9 +188,11 @@ class Vertex(base.BaseObject):
         This MUST be called when the vertex's neighbors are modified in any way
         -- linked, unlinked, or anything else, to maintain cache integrity and
         prevent stale data.
+
+        This happens whether or not caching is currently enabled: entries
+        stored while it was on must not survive a mutation made while it is
+        off, or they would be served again once it is switched back on.
         """
-        if not self.NEIGHBOR_CACHING:
-            return
         self._qa_stats()[2] += 1
         self.__qa_nb_cache = {}
 
